@@ -9,7 +9,7 @@ def check(c):
     servelib.model(c, "DispatchRule OnlyDocumentedEdits", [])
     n = 4 if thorough else 1
     shards = [["-mode", "universe", "-configs", "12" if thorough else "9"] + (["-big"] if thorough else []) for _ in range(n)]
-    tot = servelib.run_serve(c, "C11", shards, "dispatch / pass-through violated")
+    tot = servelib.run_serve(c, "C11", shards, "dispatch / pass-through violated", conform=True)
     # ... also while Reconfigure / SetDebug / Config run (S): a request must still be answered by the middleware or reach the
     # handler - in the request x writer scenarios under every schedule, a panic or a blocked thread is a C11 violation
     import json
